@@ -784,6 +784,59 @@ Section WithV6.
 End WithV6.
 
 (* ------------------------------------------------------------------ *)
+(* TUNNEL_ENCAP, PREFIX_SID and the BGP-LS attribute: the wrapper of attr_to_api
+   around the typed converters (fix commit "shows ... raw when the typed form loses
+   data").  The typed converters themselves (tunnel_encap_tlv_to_api / _from_api,
+   prefix_sid_to_api / _from_api, ls_tlvs_to_api / _from_api with the packet crate's
+   TLV decoders and encoders) are NOT modelled: they enter as the two Section
+   variables below, of which nothing is assumed; a typed message is represented by
+   an uninterpreted byte string. *)
+Inductive api_nc : Type :=
+| NcTyped (code : N) (t : list N)                 (* TunnelEncap / PrefixSid / Ls message *)
+| NcUnknown (flags code : N) (b : list N).        (* Unknown { flags, type, value } *)
+
+Fixpoint list_eqb (a b : list N) : bool :=
+  match a, b with
+  | [], [] => true
+  | x :: a', y :: b' => (x =? y) && list_eqb a' b'
+  | _, _ => false
+  end.
+
+Section Guarded.
+  (* attr_to_api_typed on the value bytes: the typed message, or None for the
+     Unknown form PREFIX_SID falls back to when its decoder fails *)
+  Variable typed_of_bytes : N -> list N -> res (option (list N)).
+  (* attr_from_api_unchecked on a typed message: the value bytes, or None = Err *)
+  Variable bytes_of_typed : N -> list N -> res (option (list N)).
+
+  Definition from_api_nc (x : api_nc) : res (option attr) :=
+    match x with
+    | NcTyped c t =>
+        r <- bytes_of_typed c t ;;
+        len_check (match r with Some b => new_with_bin c b | None => None end)
+    | NcUnknown f c b => from_api (fun _ => None) (AUnknown f c b)
+    end.
+
+  Definition to_api_nc (a : attr) : res api_nc :=
+    b <- binary_unwrap a ;;
+    t <- typed_of_bytes (a_code a) b ;;
+    match t with
+    | None => Ok (NcUnknown (a_flags a) (a_code a) b)
+    | Some t' =>
+        r <- from_api_nc (NcTyped (a_code a) t') ;;
+        match r with
+        | Some a' =>
+            match a_data a' with
+            | DVal _ => Ok (NcUnknown (a_flags a) (a_code a) b)
+            | DBin b' | DOpaque b' =>
+                if list_eqb b' b then Ok (NcTyped (a_code a) t') else Ok (NcUnknown (a_flags a) (a_code a) b)
+            end
+        | None => Ok (NcUnknown (a_flags a) (a_code a) b)
+        end
+    end.
+End Guarded.
+
+(* ------------------------------------------------------------------ *)
 (* printers                                                            *)
 Definition v_bytes (l : list N) : val := VNs l.
 
